@@ -887,6 +887,9 @@ def check_C08(chk):
     # a client that connects and goes away without sending anything: accept returns an error and nothing may stay behind
     noshow = [{"id": next(nid), "order": o, "client": k} for o in ("accept_first", "connect_first") for k in ("thread", "fork")]
     nlines = ["id=%d op=noshow order=%s client=%s" % (c["id"], c["order"], c["client"]) for c in noshow]
+    # created in one process, accepted (or dropped unused) in a forked child
+    fork_ids = [next(nid), next(nid)]
+    nlines += ["id=%d op=forkaccept unused=0" % fork_ids[0], "id=%d op=forkaccept unused=1" % fork_ids[1]]
     recs, trace, rc, err = C.run_harness(bins["default"], "server", lines + nlines, env_extra={"TMPDIR": tmp, "VSHIM_SNDBUF": 4096}, timeout=900)
     by = {r["id"]: r for r in recs if r.get("kind") == "server"}
     # the big-backlog cases once more with the system's own buffer sizes (single packets of up to 96000 bytes fill the client's socket)
@@ -953,6 +956,16 @@ def check_C08(chk):
             fails.append((dict(c, op="noshow"), r, "socket file / temp dir left behind after accept returned (%s) for a client that never sent" % r["accept"]))
         elif r["fds_after"] != r["fds_before"]:
             fails.append((dict(c, op="noshow"), r, "descriptors left behind after accept returned (%s) for a client that never sent: %d -> %d" % (r["accept"], r["fds_before"], r["fds_after"])))
+    fby = {r["id"]: r for r in recs if r.get("kind") == "forkaccept"}
+    for fid in fork_ids:
+        r = fby.get(fid)
+        if r is None:
+            fails.append(({"op": "forkaccept"}, None, "the scenario 'server created here, accepted in a forked child' did not complete: %s" % err[-200:]))
+        elif r["child"] != 0:
+            fails.append(({"op": "forkaccept", "unused": r["unused"]}, r, "a server created in one process and accepted in a forked child did not deliver the client's messages (child exit %s)" % r["child"]))
+        elif not r["gone"] or not r["dir_gone"] or r["tmp_after"] != r["tmp_before"]:
+            fails.append(({"op": "forkaccept", "unused": r["unused"]}, r, "a server created in one process and %s in a forked child leaves its socket file / temp dir behind"
+                          % ("dropped unused" if r["unused"] else "accepted")))
     # in-process transport: same scenarios with a thread client
     ilines = [l for l, c in zip(lines, cases) if c["client"] == "thread"] + [l for l, c in zip(nlines, noshow) if c["client"] == "thread"]
     irecs, _, _, ierr = C.run_harness(bins["inprocess"], "server", ilines, shim=False, timeout=300)
